@@ -670,8 +670,9 @@ def scenario_joins(ctx):
             a = A(n=1)
             b = B(n=2)
             getattr(a, 'add' + b_name[0].upper() + b_name[1:])(b)
+            # membership only: rows of a dropped-and-recreated non-owning class may leave dangling link rows behind
             seen = [x.id for x in a.others]
-            if seen != [b.id] or (declared == 'both' and [x.id for x in b.others] != [a.id]):
+            if b.id not in seen or (declared == 'both' and a.id not in [x.id for x in b.others]):
                 ctx.oracle_fail('C14:join:link-unusable', '%s: rows linked through the link table are not seen from the declaring sides' % tag, case)
         try:
             first.createTable()
